@@ -77,7 +77,7 @@ def merge_case(rng, nprobes=None, **kw):
         probes.append(probe_spec(rng, i, tdtype=tdtype, idtype=idtype, tsv=tsv, **kw))
     if rng.random() < .2 and k > 1:      # optional matrices in only some probes
         del probes[rng.randrange(k)]['similar_templates']
-    return dict(probes=probes)
+    return dict(probes=probes, dirnames=rng.pick(['idx', 'rev', 'nat']), dirkind=rng.pick(['path', 'str']))
 
 
 def _hash_dir(d):
@@ -93,6 +93,15 @@ def _arr(path):
     return dict(dtype=str(a.dtype), shape=list(a.shape), vals=a.tolist())
 
 
+def probe_dir(scheme, k):
+    """probe directory names whose lexicographic order is / is not the order in which they are given"""
+    if scheme == 'rev':
+        return 'probe_%s' % 'zyxwvutsrq'[k % 10]
+    if scheme == 'nat':
+        return 'imec%d' % (8 + k)             # imec8, imec9, imec10, ...
+    return 'probe%d' % k
+
+
 def run_merge(case):
     """Runs the real Merger on the case; returns everything C11/C12 look at."""
     from phylib.io.merge import Merger
@@ -100,9 +109,9 @@ def run_merge(case):
     with C.scratch_dir() as d:
         subdirs = []
         for k, spec in enumerate(case['probes']):
-            sd = d / ('probe%d' % k)
+            sd = d / probe_dir(case.get('dirnames', 'idx'), k)
             D.write_dataset(sd, spec)
-            subdirs.append(sd)
+            subdirs.append(str(sd) if case.get('dirkind') == 'str' else sd)
         before = [_hash_dir(sd) for sd in subdirs]
         out = d / 'merged'
         m = Merger(subdirs, out).merge()
